@@ -237,7 +237,7 @@ func (w *World) judgeC11(o *lexOutcome) (map[string]string, string) {
 	case "ok":
 		return nil, ""
 	case "budget":
-		return map[string]string{"class": "tick-budget", "innermost_fn": hrt.SiteFn(o.Verdict.Site)}, fmt.Sprintf("lexing did not finish within %d ticks", o.Verdict.Ticks)
+		return map[string]string{"class": "tick-budget", "where": "lexer"}, fmt.Sprintf("lexing did not finish within %d ticks (last site %s)", o.Verdict.Ticks, o.Verdict.Site)
 	case "panic":
 		return map[string]string{"class": "panic", "fn": o.Verdict.Site, "msg": reNum.ReplaceAllString(o.Verdict.Detail, "N")}, "lexer panicked: " + o.Verdict.Detail
 	default:
